@@ -14,7 +14,7 @@ for d in $(ls -d seeded/C*-* | sort -V); do
   cd /verif; caught=""
   for p in $props; do
     [ -f obl/$p.py ] || continue
-    res=$(VERIF_TO=300 python3 run_check.py $p 2>&1 | grep -E "obligation=|new writable" | sed 's/.*obligation=\([^ ]*\).*/\1/' | tr '\n' ',' )
+    res=$(VERIF_TO=300 python3 run_check.py $p 2>&1 | grep -E "^  obligation=|new writable" | sed 's/.*obligation=\([^ ]*\).*/\1/' | tr '\n' ',' )
     [ -n "$res" ] && caught="$caught$p:$res "
   done
   cd $WT; git reset -q --hard HEAD
